@@ -81,6 +81,7 @@ struct Sched
     chans : Vec<ChanMeta>,
     active : usize,
     aborted : bool,
+    killed : bool,
 }
 
 static SCHED : Mutex<Option<Sched>> = Mutex::new(None);
@@ -202,7 +203,7 @@ fn park(op : Op, state : St)
     {
         let (granted, aborted) = match guard.as_ref()
         {
-            Some(sched) => (sched.active == me, sched.aborted),
+            Some(sched) => (sched.active == me, sched.aborted || (sched.killed && me != 0)),
             None => (true, false),
         };
         if aborted
@@ -260,15 +261,39 @@ pub fn run_controlled<R>(
             chans : vec![],
             active : 0,
             aborted : false,
+            killed : false,
         });
     }
     TID.with(|t| t.set(Some(0)));
 
     let result = catch_unwind(AssertUnwindSafe(f));
 
-    /*  drain */
-    let drain = catch_unwind(AssertUnwindSafe(|| park(Op::new("drain", "", ""), St::Draining)));
-    let _ = drain;
+    /*  f has returned: like a process whose main function returns, the threads it left behind are killed
+        where they are (each is parked at a scheduling point); wait until they have unwound */
+    {
+        let mut guard = lock();
+        match guard.as_mut()
+        {
+            Some(sched) => { sched.killed = true; sched.active = usize::MAX; },
+            None => {},
+        }
+        CV.notify_all();
+        loop
+        {
+            let all_done = match guard.as_ref()
+            {
+                Some(sched) => sched.threads.iter().enumerate().all(|(i, th)| i == 0 || th.state == St::Finished),
+                None => true,
+            };
+            if all_done { break; }
+            guard = match CV.wait_timeout(guard, std::time::Duration::from_millis(50))
+            {
+                Ok((guard, _)) => guard,
+                Err(poisoned) => poisoned.into_inner().0,
+            };
+            CV.notify_all();
+        }
+    }
 
     TID.with(|t| t.set(None));
     let sched = lock().take().unwrap();
@@ -354,6 +379,7 @@ pub mod thread
                                 None => (true, false),
                             };
                             if granted || aborted { break; }
+                            if guard.as_ref().map(|s| s.killed).unwrap_or(false) { break; }
                             guard = match CV.wait(guard) { Ok(g) => g, Err(p) => p.into_inner() };
                         }
                     }
@@ -366,8 +392,13 @@ pub mod thread
                         Some(sched) =>
                         {
                             sched.threads[me].state = St::Finished;
+                            let panicked = panicked && !sched.killed && !sched.aborted;
                             sched.ctl.finished(me, panicked);
-                            if sched.threads[me].first
+                            if sched.killed
+                            {
+                                CV.notify_all();
+                            }
+                            else if sched.threads[me].first
                             {
                                 sched.threads[me].first = false;
                                 sched.active = sched.threads[me].parent;
